@@ -8,7 +8,7 @@ use serde::{Deserialize, Serialize};
 #[derive(Clone, Debug, PartialEq, Eq, Hash, Serialize, Deserialize)]
 pub struct BSpec {
     pub len: usize,
-    /// 0 random, 1 zeros, 2 0xff, 3 ascii, 4 "copy of the previous message" (in vectors)
+    /// 0 random, 1 zeros, 2 0xff, 3 ascii, 4 "copy of the previous message", 5 "copy of an earlier message" (in vectors)
     pub class: u8,
     pub seed: u32,
 }
@@ -107,6 +107,10 @@ impl MsgVec {
             if it.class == 4 && i > 0 {
                 let prev = out[i - 1].clone();
                 out.push(prev);
+            } else if it.class == 5 && i > 0 {
+                // copy of an arbitrary earlier message: patterns such as [a, a, b, c, b]
+                let prev = out[(it.seed as usize) % i].clone();
+                out.push(prev);
             } else {
                 out.push(it.bytes());
             }
@@ -124,7 +128,7 @@ pub fn msg_vec(
 ) -> impl Strategy<Value = MsgVec> {
     prop::sample::select(counts)
         .prop_flat_map(move |l| {
-            prop::collection::vec(bspec_from(lens, &[0, 0, 0, 0, 1, 2, 3, 4]), l..=l)
+            prop::collection::vec(bspec_from(lens, &[0, 0, 0, 0, 1, 2, 3, 4, 5, 5]), l..=l)
         })
         .prop_map(|items| MsgVec { items })
 }
@@ -134,7 +138,7 @@ pub fn msg_vec_range(
     hi: usize,
     lens: &'static [usize],
 ) -> impl Strategy<Value = MsgVec> {
-    prop::collection::vec(bspec_from(lens, &[0, 0, 0, 0, 1, 2, 3, 4]), lo..=hi)
+    prop::collection::vec(bspec_from(lens, &[0, 0, 0, 0, 1, 2, 3, 4, 5, 5]), lo..=hi)
         .prop_map(|items| MsgVec { items })
 }
 
